@@ -993,6 +993,18 @@ func (h *Host) location(ev *Event, id string, u *upload) string {
 	case "newpath":
 		u.state = strconv.Itoa(u.n)
 		return base + "/" + u.state
+	case "deeper-relative":
+		// the session moves into a sub-directory once, from then on the Location is relative to the request
+		// that is being answered (RFC 3986 resolution against that request's URL, not against the first URL)
+		if ev.Kind == "upload-start" {
+			u.state = ""
+			return base
+		}
+		u.state = "part/" + strconv.Itoa(u.n)
+		if strings.HasPrefix(strings.TrimPrefix(ev.Path, base), "/part/") {
+			return strconv.Itoa(u.n)
+		}
+		return base + "/" + u.state
 	}
 	return base
 }
@@ -1073,7 +1085,7 @@ func (h *Host) upload(ev *Event, r *http.Request, body []byte) *response {
 			h.W.Anomalies = append(h.W.Anomalies, "upload request lost or mangled the query string of its Location: "+r.URL.String())
 			return h.errResp(400, "BLOB_UPLOAD_INVALID", "stale or missing upload state in query")
 		}
-	case "newpath":
+	case "newpath", "deeper-relative":
 		if tail != u.state {
 			h.W.Anomalies = append(h.W.Anomalies, "upload request used a stale Location: "+r.URL.String())
 			return h.errResp(404, "BLOB_UPLOAD_UNKNOWN", "stale upload location")
